@@ -74,6 +74,9 @@ def t4_nonce_sequence_is_one_per_key(ctx):
     sub = Ctx(ctx.prog, "C12", ctx.tier)
     bodies = [b for b in ctx.prog.prod_bodies() if "::_" not in b.defp]
     c12.n6_one_nonce_sequence_per_subkey(sub, ctx.prog, bodies)
+    # a chunk of the other direction or of another connection fails to open only because its session subkey differs - which it does only if the
+    # subkey binds the whole salt (C12 N5 re-evaluated): a derivation that drops the salt gives every stream under one key the same subkey
+    c12.n5(sub, ctx.prog, bodies)
     n = 0
     for o in sub.obs:
         n += 1
